@@ -5,22 +5,60 @@ register("T00",  # infrastructure self-test, not a property of properties.jsonl
 
 # C01, C02, C03, C08, C10: see c01.py ... c10.py
 
-register("C20", lean_modules=["GtModel.Props.C20"], gen=lambda: __import__("harness.gentables", fromlist=["x"]).gen_cli_tables(),
+def _c20_extra(prop, tier):
+    """every exception class the recorded fuzz of the parser entry points saw (harness/gentables.py, Gen step of this run)
+    goes through the real command line with the shortest file that raised it, and through the faults monitor"""
+    from .. import common as C, gentables as G
+    from ..streams import faults as F
+    rec = G.LAST_RECORDED
+    cases = F.witness_cases(rec)
+    obs = C.run_impl("faults", cases) if cases else []
+    hits = []
+    for c, o in zip(cases, obs):
+        for h in F.monitor(c, o):
+            hits.append({"stream": "faults", "case": c, "obs": o, "key": h["key"], "what": h["what"]})
+    info = {"recorded_raised": {k: {"classes": v.get("classes"), "files": v.get("tried"), "rejected_by_reference": v.get("rejected")} for k, v in sorted(rec.items())},
+            "witness_cases": len(cases)}
+    return {"info": info, "hits": hits, "evaluations": len(cases),
+            "samples": [{"stream": "faults", "case": c, "obs": o} for c, o in list(zip(cases, obs))[:2]]}
+
+
+register("C20", lean_modules=["GtModel.Props.C20"], extra=_c20_extra, gen=lambda: __import__("harness.gentables", fromlist=["x"]).gen_cli_tables(),
          streams=["faults"],
          theorems=["GtModel.C20.handlers_cover", "GtModel.C20.invalid_yields_message", "GtModel.C20.error_path_first", "GtModel.C20.error_path_second"],
-         partial="the set of exception classes each external parser raises on invalid syntax is an assumption validated by fault enumeration; message formatting is not modelled",
-         assumptions=["RAISABLE table in harness/gentables.py (validated by the faults stream on every run)"],
-         trusted=["except-clause table and exception MROs regenerated from /repo by harness/gentables.py"])
+         partial="Only handlers_cover carries content: a decide over regenerated tables (except clauses of /repo, exception MROs, and the hand list of "
+                 "raisable classes UNITED with the classes a seeded per-run fuzz of the parser entry points really raised). The other three registered "
+                 "theorems (invalid_yields_message, error_path_first, error_path_second) restate a literal table: loadOfInvalid is DEFINED from handlersCover "
+                 "and outcome .message is the literal <1,true,true,false> transcribed from main()'s error branch, so the errorpath correspondence compares a "
+                 "per-type constant with the monitor's verdict. Everything else is decided on the real command line by the faults stream: seeded "
+                 "corruptions (truncation, delimiters, nesting, byte flips, and value-level ones: encoding names, <date>/<integer>/<real>/<data> text, "
+                 "entities, YAML timestamps/tags/aliases/merge keys, 5000-digit numbers, binary-plist header/object/offset/trailer bytes) of rich seed documents; "
+                 "quick tier samples them (about 900 files, 14 truncation points per document; every byte only in thorough). 'Invalid' = rejected by a reference parser "
+                 "with ANY exception; the reference is a second entry point where the standard library has one (pyexpat driven directly vs ElementTree, PyYAML's "
+                 "pure-Python SafeLoader vs the C loader) but the same library for plist (plistlib) and JSON5 (json5), so a parser that wrongly accepts a file "
+                 "filters it out. Message formatting is not modelled. --html is not exercised (it prints its page skeleton before the error).",
+         assumptions=["the parsers raise no exception class outside the generated raisable table = hand list in harness/gentables.py + classes recorded by this run's "
+                      "fuzz (bounded: 2.5k-12k corrupted files per type in quick, seeded by VERIF_SEED); a class outside it escaping a loader shows up in the faults stream as uncaught:<type>:<class>"],
+         trusted=["except-clause table (try scope and re-raise aware ast walk) and exception MROs regenerated from /repo by harness/gentables.py",
+                  "harness.streams.faults.record_raised (what the parser entry points raise), run on every Gen step"])
 
 from .. import gentables as _gt
 
 register("C14", lean_modules=["GtModel.Props.C14"], gen=_gt.gen_cli_tables, streams=["cli"],
          theorems=["GtModel.C14.alias_from_type", "GtModel.C14.explicit_mime_wins", "GtModel.C14.explicit_type_wins",
-                   "GtModel.C14.second_file_ignores_first_file_options", "GtModel.C14.alias_k", "GtModel.C14.alias_j",
+                   "GtModel.C14.second_file_ignores_first_file_options", "GtModel.C14.first_file_ignores_second_file_options",
+                   "GtModel.C14.alias_k", "GtModel.C14.alias_j", "GtModel.C14.join_flags_independent",
                    "GtModel.C14.default_is_auto", "GtModel.C14.by_mime_of_default"],
-         partial="argparse's parsing of argv and the byte-level agreement with the library are checked by the cli stream on the real code, not proved",
+         partial="the theorems are rfl/simp/decide facts about a small model of main()'s selection and option logic; argparse's parsing of argv and the "
+                 "byte-level agreement with the library are checked by the cli stream on the real code, not proved: all 8 types incl. pickle (binary filesets, "
+                 ".pkl/.pickle names), every ordered pair of different types in the four spellings (type/type, type/mime, mime/type, mime/mime) on neutral, "
+                 "misleading and compression-like names (old.json.gz), each join flag alone, and command-vs-library text and exit status in full-diff, -e and -d "
+                 "mode with and without -f (in-process, stdout replaced), plus 8 documents as a real process writing to a pipe with and without --no-status "
+                 "(line-separator characters in YAML/XML strings). Not exercised: --html, --color, stdin ('-'), a TTY. Cross-type pairs whose diff raises in the "
+                 "library (xml vs non-xml, plist vs json: same exception from the command) contribute the parser selection only.",
          assumptions=["mimetypes.guess_type is an oracle (its answer for each file name is recorded and shipped to the model)"],
-         trusted=["file-type tables regenerated from /repo by harness/gentables.py"])
+         trusted=["file-type tables regenerated from /repo by harness/gentables.py",
+                  "harness/streams/cli.py:_lib_run — an independent transcription of the documented library call sequence for the three output modes"])
 
 register("C13", lean_modules=["GtModel.Props.C13"], gen=_gt.gen_formatter_tables, streams=["dispatch", "matrix"],
          theorems=["GtModel.C13.dispatch_total", "GtModel.C13.dispatch_total_from_subformatters", "GtModel.C13.string_edit_dispatch_total", "GtModel.C13.edit_dispatch_exact", "GtModel.C13.fuel_sufficient"],
